@@ -18,23 +18,23 @@ fn c(name: &'static str, quick: u64, thorough: u64) -> Config { Config { name, q
 pub fn spec(prop: &str) -> Option<(&'static str, &'static str, Vec<Config>)> {
   Some(match prop {
     "C01" => ("e1", "class-W programs x initial worlds x histories of external changes (set/create/delete/overwrite of sources and generated resources, touches) and top-down sessions with arbitrary root sequences; configurations: fault-free (td, td-big), with injected checker errors, with injected crashes; oracle: outputs and world of every returning session = from-scratch build of the current state + complete validation of every reused task. Non-trivial = some returning session both reused and re-executed tasks; distinct by scenario fingerprint.",
-      vec![c("td", 100_000, 4_000_000), c("td-big", 30_000, 1_000_000), c("td-checkerr", 40_000, 1_000_000), c("td-crash", 40_000, 1_000_000), c("td-backends", 40_000, 1_000_000), c("td-files", 15_000, 400_000)]),
+      vec![c("td", 300_000, 4_000_000), c("td-big", 90_000, 1_000_000), c("td-checkerr", 120_000, 1_000_000), c("td-crash", 120_000, 1_000_000), c("td-backends", 120_000, 1_000_000), c("td-files", 45_000, 400_000)]),
     "C02" => ("e1", "as C01 plus exact-checker-only programs (minimality clause) and crash / checker-error configurations; oracles: at most one execution per task and session, every re-execution follows an inconsistent verdict on a dependency of the task's latest execution (serial-numbered stamps), validation in creation order with early stop, repeat sessions execute nothing, exact-checker programs execute a subset of the from-scratch build. Non-trivial = some session both reused and re-executed tasks.",
-      vec![c("td", 60_000, 2_000_000), c("td-exact", 60_000, 2_000_000), c("td-crash", 50_000, 1_500_000), c("td-checkerr", 30_000, 1_000_000), c("td-backends", 30_000, 1_000_000), c("td-files", 10_000, 300_000)]),
+      vec![c("td", 180_000, 2_000_000), c("td-exact", 180_000, 2_000_000), c("td-crash", 150_000, 1_500_000), c("td-checkerr", 90_000, 1_000_000), c("td-backends", 90_000, 1_000_000), c("td-files", 30_000, 300_000)]),
     "C03" => ("e1", "histories of change batches reported completely to bottom-up builds: pure bottom-up, mixed with all-roots top-down sessions, many-tasks-few-resources programs with bursts of changes, and mixed with arbitrary top-down sessions in between (bu-mixed: staleness left by a partial top-down session is the recorded finding); oracles: probing all known tasks afterwards executes nothing and returns from-scratch outputs, world = from-scratch, every inconsistent verdict during the build leads to an execution, no cached reuse while something scheduled is reachable. Non-trivial = a bottom-up session both reused and re-executed tasks.",
-      vec![c("bu-pure", 60_000, 2_000_000), c("bu-allroots", 60_000, 2_000_000), c("bu-big", 80_000, 2_500_000), c("bu-mixed", 40_000, 1_500_000), c("bu-backends", 30_000, 1_000_000), c("bu-files", 10_000, 300_000), c("bu-checkerr", 40_000, 1_000_000)]),
+      vec![c("bu-pure", 180_000, 2_000_000), c("bu-allroots", 180_000, 2_000_000), c("bu-big", 240_000, 2_500_000), c("bu-mixed", 120_000, 1_500_000), c("bu-backends", 90_000, 1_000_000), c("bu-files", 30_000, 300_000), c("bu-checkerr", 120_000, 1_000_000)]),
     "C04" => ("e1", "as C03 (large scheduled sets first); oracles: at most one execution per task and build, every execution of a previously completed task follows an inconsistent / erroneous verdict on one of its own recorded dependencies in that build, no task executes while a scheduled task it transitively requires (recorded edges) still waits. Non-trivial = a bottom-up session both reused and re-executed tasks.",
-      vec![c("bu-big", 100_000, 3_000_000), c("bu-pure", 50_000, 2_000_000), c("bu-allroots", 50_000, 2_000_000), c("bu-big-allroots", 50_000, 1_500_000)]),
+      vec![c("bu-big", 300_000, 3_000_000), c("bu-pure", 150_000, 2_000_000), c("bu-allroots", 150_000, 2_000_000), c("bu-big-allroots", 150_000, 1_500_000)]),
     "C05" => ("e1", "class-X programs: a well-formed program plus one injected read of a generated resource without requiring its writer, or one injected write of a resource some other task reads, at any task / depth, optionally guarded by a value-dependent condition; top-down and mixed bottom-up histories; online monitors on the ledger: a read / write that returns must not leave a reader without a require path to the writer; write-side aborts through Context::write happen before the resource is opened; after a returning build every fresh reader reaches the writer. Class-W runs as negative control. Non-trivial = a diagnostic abort happened or a session both reused and re-executed.",
-      vec![c("x-hidden-td", 80_000, 2_500_000), c("x-hidden-bu", 60_000, 2_000_000), c("td", 20_000, 500_000), c("x-hidden-crash-bu", 60_000, 1_500_000)]),
+      vec![c("x-hidden-td", 240_000, 2_500_000), c("x-hidden-bu", 180_000, 2_000_000), c("td", 60_000, 500_000), c("x-hidden-crash-bu", 180_000, 1_500_000)]),
     "C06" => ("e1", "class-X programs with a second writer of a generated resource (through write and through create_writer + written_to), both orders, split across sessions and build modes; class-W programs with writers re-executed through every route, also after crashes; monitors: a write that returns while another task is the recorded writer is a missed detection; at most one writer per resource after a returning build; aborts through Context::write before modification; a writer's own earlier write is never reported. Non-trivial as C05.",
-      vec![c("x-overlap-td", 80_000, 2_500_000), c("x-overlap-bu", 60_000, 2_000_000), c("bu-allroots", 20_000, 500_000), c("bu-crash", 40_000, 1_000_000), c("td-crash", 20_000, 500_000), c("x-overlap-crash-bu", 40_000, 1_000_000)]),
+      vec![c("x-overlap-td", 240_000, 2_500_000), c("x-overlap-bu", 180_000, 2_000_000), c("bu-allroots", 60_000, 500_000), c("bu-crash", 120_000, 1_000_000), c("td-crash", 60_000, 500_000), c("x-overlap-crash-bu", 120_000, 1_000_000)]),
     "C07" => ("e1", "class-X programs with an injected back-require closing a cycle of length 1..n, possibly value-dependent and arising in a later session; monitors: a require of a task on the execution stack must not return, must be diagnosed as a cyclic dependency, no task is entered a second time, depth / execution-count guards never fire. Non-trivial as C05.",
-      vec![c("x-cycle-td", 80_000, 2_500_000), c("x-cycle-bu", 60_000, 2_000_000)]),
+      vec![c("x-cycle-td", 240_000, 2_500_000), c("x-cycle-bu", 180_000, 2_000_000)]),
     "C08" => ("e1", "class-W programs whose tasks change their dependency sets with resource values, over top-down, mixed and crash-injecting histories; class-M programs (a second dependency on one target with another checker: recorded finding); oracle: after every returning session the guarded store dump equals the ledger of latest executions (targets, kinds, checker, stamp serial, order, outputs, no reserved edges on completed tasks, symmetric adjacency) and no check is ever made against a stamp of an earlier execution. Non-trivial = some session both reused and re-executed tasks.",
-      vec![c("td", 60_000, 2_000_000), c("bu-mixed", 60_000, 2_000_000), c("td-crash", 40_000, 1_000_000), c("bu-crash", 40_000, 1_000_000), c("m-td", 20_000, 500_000), c("m-bu", 20_000, 500_000)]),
+      vec![c("td", 180_000, 2_000_000), c("bu-mixed", 180_000, 2_000_000), c("td-crash", 120_000, 1_000_000), c("bu-crash", 120_000, 1_000_000), c("m-td", 60_000, 500_000), c("m-bu", 60_000, 500_000)]),
     "C09" => ("e1", "programs mixing exact, parity, existence-only, version (logical clock), threshold and always-consistent resource checkers and six output checkers (five built-in ones through a delegating instrumented checker); histories with changes a coarse checker must ignore and with writes by the task itself; oracles: stamp route and timing (reader handed to the task, after write_fn, from the returned output), verdict relation of every output check, consistent never re-executes, inconsistent always does. Non-trivial = a session both reused and re-executed tasks and a coarse checker ignored a real value change.",
-      vec![c("td", 60_000, 2_000_000), c("bu-allroots", 50_000, 1_500_000), c("td-big", 30_000, 1_000_000), c("m-td", 30_000, 1_000_000), c("bu-big", 30_000, 1_000_000), c("td-files", 15_000, 400_000), c("bu-files", 10_000, 300_000), c("td-backends", 20_000, 500_000), c("td-crash", 30_000, 1_000_000), c("bu-crash", 30_000, 1_000_000)]),
+      vec![c("td", 180_000, 2_000_000), c("bu-allroots", 150_000, 1_500_000), c("td-big", 90_000, 1_000_000), c("m-td", 90_000, 1_000_000), c("bu-big", 90_000, 1_000_000), c("td-files", 45_000, 400_000), c("bu-files", 30_000, 300_000), c("td-backends", 60_000, 500_000), c("td-crash", 90_000, 1_000_000), c("bu-crash", 90_000, 1_000_000)]),
     "C10" => ("e2", "seeded operation histories (add_node / add_edge / remove_edge / remove_outgoing_edges_of_node / remove_node, <= 12 live nodes, <= 60 (long: 120) operations, biased to back-edges, cycle-closing edges, re-insertions and dead handles) over DAG<u32,u64> with a seeded hasher; after every operation: rank bijection onto 1..n, ascending edges, exact add_edge verdict vs DFS reference, rollback of rejected insertions. Non-trivial = history with an order-changing insertion (rank(dst) < rank(src)) and a removal.",
       vec![c("short", 150_000, 2_500_000), c("long", 50_000, 1_200_000)]),
     "C11" => ("e2", "same histories as C10; after every operation every public query for every ordered pair of live and dead handles is compared with the reference graph (first-insertion order and data, symmetric adjacency, descendants exact / once / ascending, transitive reachability, topo_cmp, removal results). Non-trivial as C10.",
@@ -44,29 +44,49 @@ pub fn spec(prop: &str) -> Option<(&'static str, &'static str, Vec<Config>)> {
     "C14" => ("e4", "seeded histories over three map key types (two sharing a value type) and two unrelated resource types in one Pie: direct edits, reads, writer operations (insert / get / get_mut / entry), stamps by three routes, checks of remembered stamps, an incremental task reading and writing through the context, and raw typed state accesses (get / get_mut / set / get_boxed(_mut) / set_boxed / get_or_set_default(_mut)) with matching and non-matching state types; after every operation the returned value and the complete observable state of every resource type equal the model. Non-trivial = >= 3 resource types hold state and a remembered stamp was checked.",
       vec![c("mix", 300_000, 10_000_000)]),
     "C15" => ("e1", "class-W programs over task families T<0>, T<1>, Box<T<2>>, Rc<T<3>>, Arc<T<4>> and the wrappers Box<T<0>>, Rc<T<0>> around the very type of family 0, and resource families R<0>, R<1>, all with coinciding ids, hashes and Debug text; every scenario starts with direct trait-object equality probes over all key pairs; oracles: from-scratch outputs (scripts differ per key), one node per key in the store dump, dependencies attached to the right node. Non-trivial = some session both reused and re-executed tasks.",
-      vec![c("id-td", 80_000, 2_500_000), c("id-bu", 60_000, 2_000_000), c("td", 30_000, 1_000_000)]),
+      vec![c("id-td", 240_000, 2_500_000), c("id-bu", 180_000, 2_000_000), c("td", 90_000, 1_000_000)]),
     "C16" => ("e1", "every scenario is replayed under perturbations that must not matter: another hash seed, after unrelated instances were built and dropped on the same thread, in a fresh thread, with OS-random hash seeds, and (configurations *-replay-proc) in a second process with OS-random hash seeds; the complete unified event log (task-side, checker-side, resource-side and tracker events incl. stamps) must be identical. Non-trivial = some session both reused and re-executed tasks.",
       vec![c("td-replay", 20_000, 700_000), c("bu-replay", 20_000, 700_000), c("bu-mixed-replay", 10_000, 300_000), c("bu-big-replay", 60_000, 1_500_000), c("files-replay", 8_000, 200_000), c("td-replay-thread", 2_000, 100_000), c("bu-replay-thread", 2_000, 100_000), c("td-replay-proc", 250, 20_000), c("bu-replay-proc", 250, 20_000)]),
     "C17" => ("e1", "tracker = Composite(Rec, Composite(EventTracker, Rec)) in every scenario (top-down, bottom-up, checker errors, diagnosed violations): both recorders identical, strict stack nesting, execute / check / require events match the task-side and checker-side logs, EventTracker contents, indices and every helper x event x key (incl. a foreign key) equal a reference scan. Non-trivial = some session both reused and re-executed tasks.",
-      vec![c("td", 50_000, 2_000_000), c("bu-pure", 50_000, 2_000_000), c("td-checkerr", 30_000, 1_000_000), c("bu-checkerr", 30_000, 1_000_000), c("bu-big", 30_000, 1_000_000), c("x-any-td", 20_000, 500_000), c("bu-backends", 20_000, 500_000), c("td-files", 8_000, 200_000)]),
+      vec![c("td", 150_000, 2_000_000), c("bu-pure", 150_000, 2_000_000), c("td-checkerr", 90_000, 1_000_000), c("bu-checkerr", 90_000, 1_000_000), c("bu-big", 90_000, 1_000_000), c("x-any-td", 60_000, 500_000), c("bu-backends", 60_000, 500_000), c("td-files", 24_000, 200_000)]),
     "C18" => ("e1", "class-W scenarios in which chosen `check` calls (k-th call of a session, or every check of a resource) return an error, top-down and bottom-up; oracles: the owning task is re-executed / scheduled and never reused, every injected error appears exactly once and in order in Session::dependency_check_errors, the build does not abort, results still equal the from-scratch build. Non-trivial = at least one injected checker error fired.",
-      vec![c("td-checkerr", 80_000, 2_500_000), c("bu-checkerr", 80_000, 2_500_000)]),
+      vec![c("td-checkerr", 240_000, 2_500_000), c("bu-checkerr", 240_000, 2_500_000)]),
     "C19" => ("e1", "class-W, class-X and class-V scenarios with aborts: injected panics at seeded ticks (any operation of any task at any depth, inside write functions and checker calls) and diagnosed violations; the instance is used again: later top-down sessions must return from-scratch results, abort only for an existing violation or with a listed stale-edge signature, never with an internal error; the world after an abort holds exactly the writes that happened. Non-trivial = a crash fired and a later top-down session returned.",
-      vec![c("td-crash", 80_000, 3_000_000), c("bu-crash", 50_000, 2_000_000), c("x-any-td", 60_000, 2_000_000), c("x-any-crash", 40_000, 1_000_000), c("v-td-crash", 40_000, 1_000_000)]),
+      vec![c("td-crash", 240_000, 3_000_000), c("bu-crash", 150_000, 2_000_000), c("x-any-td", 180_000, 2_000_000), c("x-any-crash", 120_000, 1_000_000), c("v-td-crash", 120_000, 1_000_000)]),
     "C20" => ("e1", "class-W programs (any diagnostic abort is a violation) and class-V programs (two or three well-formed sub-programs with different role assignments selected by a mode resource; every state is violation-free): a diagnostic abort must exist in a from-scratch build of all known tasks, else it must be explained by recorded dependencies of tasks not yet validated in the session (stale-edge signature: listed finding or violation); unexplained aborts and internal errors are violations. Non-trivial = a diagnostic abort happened or a session both reused and re-executed.",
-      vec![c("v-td", 80_000, 2_500_000), c("v-bu", 40_000, 1_500_000), c("td", 40_000, 1_000_000), c("bu-mixed", 40_000, 1_000_000), c("bu-big", 20_000, 500_000), c("v-bu-big", 60_000, 1_500_000), c("v-td-crash", 40_000, 1_000_000)]),
+      vec![c("v-td", 240_000, 2_500_000), c("v-bu", 120_000, 1_500_000), c("td", 120_000, 1_000_000), c("bu-mixed", 120_000, 1_000_000), c("bu-big", 60_000, 500_000), c("v-bu-big", 180_000, 1_500_000), c("v-td-crash", 120_000, 1_000_000)]),
     _ => return None,
   })
+}
+
+fn probes_of(prop: &str) -> Vec<&'static str> {
+  match prop {
+    "C01" | "C02" | "C09" => vec!["probe_early_cutoff", "probe_dependency_set_changed", "probe_generated_resource_repaired", "access_sim_RA", "access_map_MK2", "access_file"],
+    "C03" | "C04" => vec!["probe_early_cutoff", "probe_dependency_set_changed", "probe_bu_queue_ge3", "probe_bu_nested_execution_of_scheduled_task", "probe_bu_new_task_executed_nested", "probe_generated_resource_repaired"],
+    "C05" => vec!["abort_Hidden", "abort_for_existing_violation"],
+    "C06" => vec!["abort_Overlap", "abort_for_existing_violation", "fault_crash_fired"],
+    "C07" => vec!["abort_Cycle", "abort_for_existing_violation"],
+    "C08" => vec!["probe_dependency_set_changed", "fault_crash_fired", "probe_reserved_edge_after_abort"],
+    "C10" | "C11" => vec!["add_edge_reorder", "add_edge_cycle_rejected", "add_edge_existing", "add_edge_node_missing", "remove_node_live", "remove_out_nonempty", "remove_edge_existing", "reorder_moved_ge3"],
+    "C13" => vec!["fault_delete_before_stamp_writer", "fault_modify_before_stamp_writer", "op_dir_add", "op_check", "stamp_check_pairs"],
+    "C14" => vec!["op_raw", "op_task", "op_check", "op_writer"],
+    "C16" => vec!["replay_variant_1", "replay_variant_2", "replay_variant_3", "replay_variant_4", "replay_variant_second_process"],
+    "C17" => vec!["fault_checker_error_fired", "abort_Hidden", "probe_bu_queue_ge3"],
+    "C18" => vec!["fault_checker_error_fired"],
+    "C19" => vec!["fault_crash_fired", "probe_reserved_edge_after_abort", "abort_Cycle", "abort_Hidden", "abort_Overlap"],
+    "C20" => vec!["stale_edge_abort:cycle:stale-require", "stale_edge_abort:overlap:stale-writer", "stale_edge_abort:hidden:stale-reader", "stale_edge_abort:hidden:stale-writer"],
+    _ => vec![],
+  }
 }
 
 pub fn check(prop: &str, tier: &str) -> i32 {
   let Some((engine, rule, configs)) = spec(prop) else { eprintln!("no check for property {prop}"); return 2; };
   let prop_static: &'static str = Box::leak(prop.to_string().into_boxed_str());
   match engine {
-    "e1" => run_check(&BuildEngine, &CheckSpec { prop: prop_static, rule, assumptions: E1_ASSUME.to_vec(), configs }, tier),
-    "e2" => run_check(&DagEngine, &CheckSpec { prop: prop_static, rule, assumptions: vec!["the reference graph (ordered adjacency lists + DFS) is correct", "hash order is controlled through the guarded seeded-hasher seam", "<= 12 live nodes, <= 120 operations per history; evidence over sampled histories, not proof"], configs }, tier),
-    "e3" => run_check(&FsEngine, &CheckSpec { prop: prop_static, rule, assumptions: vec!["runs on the real kernel filesystem of this machine (tmpfs under /dev/shm, else the temp dir)", "SHA-256 collisions are ignored", "kernel directory iteration order is not controlled: only 'untouched' and 'different name set' are claimed for directories"], configs }, tier),
-    _ => run_check(&StateEngine, &CheckSpec { prop: prop_static, rule, assumptions: vec!["the map-of-maps reference model is correct", "evidence over sampled histories, not proof"], configs }, tier),
+    "e1" => run_check(&BuildEngine, &CheckSpec { prop: prop_static, rule, assumptions: E1_ASSUME.to_vec(), configs, probes: probes_of(prop) }, tier),
+    "e2" => run_check(&DagEngine, &CheckSpec { prop: prop_static, rule, assumptions: vec!["the reference graph (ordered adjacency lists + DFS) is correct", "hash order is controlled through the guarded seeded-hasher seam", "<= 12 live nodes, <= 120 operations per history; evidence over sampled histories, not proof"], configs, probes: probes_of(prop) }, tier),
+    "e3" => run_check(&FsEngine, &CheckSpec { prop: prop_static, rule, assumptions: vec!["runs on the real kernel filesystem of this machine (tmpfs under /dev/shm, else the temp dir)", "SHA-256 collisions are ignored", "kernel directory iteration order is not controlled: only 'untouched' and 'different name set' are claimed for directories"], configs, probes: probes_of(prop) }, tier),
+    _ => run_check(&StateEngine, &CheckSpec { prop: prop_static, rule, assumptions: vec!["the map-of-maps reference model is correct", "evidence over sampled histories, not proof"], configs, probes: probes_of(prop) }, tier),
   }
 }
 
